@@ -1,7 +1,7 @@
 """Per-property claim texts for MANIFEST.json."""
 HOOK_COMMITS = []
 KANI_PROPS = []
-BOUNDED_PROPS = ['C01', 'C02', 'C03', 'C04', 'C07', 'C08', 'C09', 'C10', 'C12', 'C13', 'C14', 'C15', 'C17', 'C18', 'C19', 'C20']
+BOUNDED_PROPS = ['C05', 'C01', 'C02', 'C03', 'C04', 'C07', 'C08', 'C09', 'C10', 'C12', 'C13', 'C14', 'C15', 'C17', 'C18', 'C19', 'C20']
 NOTES = ('Exit status of every check: 0 = all obligations of the property discharged (KNOWN-FINDING lines may be printed), '
          '1 = VIOLATION line, 2 = undecided (lost anchor, Verus front-end error, resource limit, unstable verdict) -- never an alarm. '
          'Claims marked PARTIAL list what is outside the contracts under evidence.coverage.not_covered; checks whose category is "other" are bounded stand-ins only (no discharged obligation). See DESIGN.md.')
